@@ -69,6 +69,7 @@ PROPS = {
                       "every code value the encoder can emit (255 codes x 2 regular codecs evaluated). Not the byte-level round trip.",
         "level_note": "trusts clang constant folding of the macro-expanded formulas; pattern anchors: `++code == E`, conditional `c + K`, `_ctx & 0xff`",
         "rules": [
+            {"run": rules_lin.run_lincodec, "floor": 30, "use_anchor_files": True},
             {"run": rules_path.run_cursorpair, "floor": 2, "use_anchor_files": True},
             {"run": rules_path.run_undoset, "floor": 2, "use_anchor_files": True},
             {"run": rules_path.run_steppair, "floor": 1, "use_anchor_files": True},
